@@ -48,6 +48,7 @@ type checkRun struct {
 	extraObl []*Obligation
 	notes    []string
 	nLemmas  int
+	scanOnly bool // the property is decided by scan obligations only (C19)
 }
 
 func clauseHasTag(c *Clause, prop string) bool {
